@@ -268,12 +268,111 @@ def _byte_index_ok(f, rd, node_id, e, depth=0):
             if not ds:
                 return False
             for d in ds:
+                if d.kind == 'param' and f.static and _PROG_W3.get('prog') is not None:
+                    # an unmodified parameter of a static helper: every actual argument at every call site is a byte value
+                    if not _actuals_ok(f, canon(x), depth):
+                        return False
+                    continue
                 if d.kind not in ('init', 'assign') or d.rhs is None:
                     return False
                 if not _byte_index_ok(f, rd, d.node, d.rhs, depth + 1):
                     return False
             return True
     return False
+
+
+_PROG_W3 = {}
+
+
+def _actuals_ok(f, pname, depth):
+    from .dataflow import ReachingDefs
+    prog = _PROG_W3['prog']
+    pnames = [p.get('name') for p in f.params]
+    if pname not in pnames:
+        return False
+    k = pnames.index(pname)
+    sites = 0
+    for g in prog.funcs_in(f.unit.rel):
+        if g.body is None:
+            continue
+        rdg = None
+        for n in g.cfg.nodes:
+            if n.id not in g.cfg.reachable or not isinstance(n.ast, dict) or n.kind == 'macro':
+                continue
+            for y in walk(n.ast):
+                if y.get('kind') == 'CallExpr' and prog.callee_name(y) == f.name and len(children(y)) > k + 1:
+                    sites += 1
+                    rdg = rdg or ReachingDefs(g)
+                    if n.id not in rdg.IN or not _byte_index_ok(g, rdg, n.id, children(y)[k + 1], depth + 1):
+                        return False
+    return sites > 0
+
+
+def _byte_interval(f, rd, node_id, e, depth=0):
+    """(lo, hi) of an integer expression built from byte values, or None: plain/signed char -> [-128, 127], unsigned char ->
+    [0, 255], constants, & mask, >> k, + c, casts to wider types, variables through all their reaching definitions."""
+    from .frontend import dtype, qtype
+    x = e
+    while x.get('kind') in ('ImplicitCastExpr', 'ParenExpr') and x.get('inner'):
+        x = x['inner'][0]
+    v = int_value(x)
+    if isinstance(v, int):
+        return (v, v)
+    k = x.get('kind')
+    t = ((dtype(x) if x.get('type') else '') or '') + ' ' + (qtype(x) or '')
+    if k == 'CStyleCastExpr':
+        if 'unsigned char' in t or 'uint8_t' in t:
+            return (0, 255)
+        return _byte_interval(f, rd, node_id, children(x)[0], depth)
+    if k == 'BinaryOperator' and x.get('opcode') == '&':
+        for c in children(x):
+            m = int_value(c)
+            if isinstance(m, int) and m >= 0:
+                return (0, m)
+        return None
+    if k == 'BinaryOperator' and x.get('opcode') == '>>':
+        a = _byte_interval(f, rd, node_id, children(x)[0], depth)
+        sh = int_value(children(x)[1])
+        if a is None or not isinstance(sh, int):
+            return None
+        return (a[0] >> sh, a[1] >> sh)
+    if k == 'BinaryOperator' and x.get('opcode') in ('+', '-'):
+        a = _byte_interval(f, rd, node_id, children(x)[0], depth)
+        b = _byte_interval(f, rd, node_id, children(x)[1], depth)
+        if a is None or b is None:
+            return None
+        return (a[0] + b[0], a[1] + b[1]) if x['opcode'] == '+' else (a[0] - b[1], a[1] - b[0])
+    if k in ('UnaryOperator', 'ArraySubscriptExpr') and (k != 'UnaryOperator' or x.get('opcode') == '*'):
+        if 'unsigned char' in t or 'uint8_t' in t:
+            return (0, 255)
+        if _re_char.match((qtype(x) or '').replace('const', '').strip()):
+            return (-128, 127)
+        return None
+    if k == 'DeclRefExpr' and depth < 3:
+        r = x.get('_ref') or ('',)
+        if 'unsigned char' in t or 'uint8_t' in t:
+            return (0, 255)
+        if r[0] in ('local', 'param'):
+            if _re_char.match((qtype(x) or '').replace('const', '').strip()):
+                return (-128, 127)
+            ds = rd.reaching(node_id, r[1])
+            if not ds:
+                return None
+            lo, hi = None, None
+            for d in ds:
+                if d.kind not in ('init', 'assign') or d.rhs is None:
+                    return None
+                iv = _byte_interval(f, rd, d.node, d.rhs, depth + 1)
+                if iv is None:
+                    return None
+                lo = iv[0] if lo is None else min(lo, iv[0])
+                hi = iv[1] if hi is None else max(hi, iv[1])
+            return (lo, hi)
+    return None
+
+
+import re as _re_mod
+_re_char = _re_mod.compile(r'^(signed )?char$')
 
 
 def rule_bytetable_index(prog, rep, units, rid='W3', control=None):
@@ -285,6 +384,7 @@ def rule_bytetable_index(prog, rep, units, rid='W3', control=None):
     rep.rule(rid, 'a 256-entry (per byte value) table is indexed only by a value provably in 0..255: an unsigned char, a masked '
                   'value, or an int all of whose definitions are such (a plain char is negative for bytes >= 0x80)')
     n_control = 0
+    _PROG_W3['prog'] = prog
     for unit in list(units) + list(control or ()):
         prog.unit(unit)
         for f in sorted(prog.funcs_in(unit), key=lambda x: x.line or 0):
@@ -299,6 +399,25 @@ def rule_bytetable_index(prog, rep, units, rid='W3', control=None):
                         continue
                     base = strip(children(x)[0])
                     m = _re.search(r'\[(\d+)\]', qtype(base) or '')
+                    if m and int(m.group(1)) != 256 and unit not in (control or ()):
+                        # a smaller table indexed by a value computed from a byte (bitmaps `map[c >> 3]`, nibble tables): judged
+                        # only when the range of the index is computable from byte ranges
+                        rd = rd or ReachingDefs(f)
+                        if n.id not in rd.IN:
+                            continue
+                        iv = _byte_interval(f, rd, n.id, children(x)[1])
+                        if iv is None or iv == (iv[0], iv[0]):
+                            continue
+                        # only indexes that really come from a byte value (range within what char arithmetic produces)
+                        N = int(m.group(1))
+                        rep.instance(rid)
+                        ok2 = iv[0] >= 0 and iv[1] < N
+                        rep.oblige(rid, ok2, {'function': f.name, 'line': x.get('_line'), 'subscript': canon(x)[:60], 'index_range': list(iv), 'entries': N})
+                        if not ok2:
+                            rep.violation(rid, f, x.get('_line'), 'index:%s' % canon(children(x)[1])[:40],
+                                          '%s indexes a %d-entry table with a value in [%d, %d] (computed from a plain char, which is negative '
+                                          'for bytes >= 0x80): the access lies outside the table' % (canon(x)[:60], N, iv[0], iv[1]))
+                        continue
                     if not m or int(m.group(1)) != 256:
                         continue
                     rd = rd or ReachingDefs(f)
@@ -368,3 +487,115 @@ def rule_snprintf_fit(prog, rep, units, rid='W5'):
                         rep.violation(rid, f, x.get('_line'), 'fit:%s' % canon(x)[:30],
                                       '%s treats a result equal to the size as fitting: (v)snprintf returns the length the full text '
                                       'would have had, so n == size means the last character was dropped' % canon(x)[:50])
+
+
+def rule_overwrite_step(prog, rep, units, rid='W6'):
+    """In-place rewriting loops.  A loop that overwrites the text at its scan cursor (`memcpy(p, word, L)`) and continues the
+    scan from a position computed from that cursor must continue behind what it wrote: the next cursor is `p + L` (or a
+    search starting at `p + L`).  Continuing at `p + 1` lets the search match inside the text just written - the output is
+    then no longer the left-to-right, non-overlapping replacement."""
+    from .dataflow import poly_of
+    from .looprules import _natural_body
+    rep.rule(rid, 'a loop that overwrites L bytes at its scan cursor continues the scan at cursor + L, not inside the bytes it wrote')
+    for unit in units:
+        prog.unit(unit)
+        for f in sorted(prog.funcs_in(unit), key=lambda x: x.line or 0):
+            if f.body is None:
+                continue
+            cfg = f.cfg
+            for (head, stmt) in cfg.loops:
+                if head.id not in cfg.reachable:
+                    continue
+                body = _natural_body(cfg, head, stmt)
+                writes = []
+                for i in body:
+                    m = cfg.nodes[i]
+                    if isinstance(m.ast, dict) and m.kind != 'macro':
+                        for y in walk(m.ast):
+                            if y.get('kind') == 'CallExpr' and prog.callee_name(y) in ('memcpy', 'memmove', 'strncpy') and len(children(y)) > 3:
+                                d = strip(children(y)[1])
+                                if d.get('kind') == 'DeclRefExpr' and (d.get('_ref') or ('',))[0] == 'local':
+                                    writes.append((canon(d), children(y)[3], y))
+                for (cur, ln, call) in writes:
+                    # the cursor's re-definitions inside the loop that mention the cursor itself
+                    steps = []
+                    for i in body:
+                        m = cfg.nodes[i]
+                        if not isinstance(m.ast, dict) or m.kind == 'macro':
+                            continue
+                        for y in walk(m.ast):
+                            if y.get('kind') == 'BinaryOperator' and y.get('opcode') == '=' and canon(children(y)[0]) == cur:
+                                r = strip(children(y)[1])
+                                # p = p + c   or   p = search(p + c, ...)
+                                cands = [r] + ([strip(a) for a in children(r)[1:]] if r.get('kind') == 'CallExpr' else [])
+                                for c in cands:
+                                    if c.get('kind') == 'BinaryOperator' and c.get('opcode') == '+':
+                                        a, b = [strip(z) for z in children(c)]
+                                        for (base, off) in ((a, b), (b, a)):
+                                            if canon(base) == cur:
+                                                steps.append((off, y))
+                            elif y.get('kind') == 'CompoundAssignOperator' and y.get('opcode') == '+=' and canon(children(y)[0]) == cur:
+                                steps.append((children(y)[1], y))
+                    if not steps:
+                        continue
+                    rep.instance(rid)
+                    bad = [(off, y) for (off, y) in steps if not (poly_of(off) - poly_of(ln)).is_zero()]
+                    rep.oblige(rid, not bad, {'function': f.name, 'overwrite': canon(call)[:60]})
+                    if bad:
+                        off, y = bad[0]
+                        rep.violation(rid, f, y.get('_line'), 'step:%s' % canon(off)[:20],
+                                      '%s: the loop overwrites %s bytes at %s (%s) and continues at %s + %s: the scan re-enters the text it '
+                                      'just wrote, so matches that begin inside a replacement are replaced again'
+                                      % (f.name, canon(ln), cur, canon(call)[:50], cur, canon(off)))
+
+
+def rule_no_store_before_move(prog, rep, rid='Q3'):
+    """Overlap tolerance of the size-parameterised copy routines: the bytes are moved with memmove(dst, src, n) because src may
+    lie inside dst; any store into dst before that move (the terminator, typically) can destroy source bytes that have not
+    been moved yet."""
+    from .index import _sized_dest
+    from .expr import access_path
+    rep.rule(rid, 'in the overlap-tolerant copy routines no store into the destination precedes the memmove that reads the source')
+    unit = 'src/utilities/qstring.c'
+    prog.unit(unit)
+    for f in sorted(prog.funcs_in(unit), key=lambda x: x.line or 0):
+        if f.body is None or not _sized_dest(f):
+            continue
+        dst, _size = _sized_dest(f)
+        cfg = f.cfg
+        moves = [n for n in cfg.nodes if n.id in cfg.reachable and isinstance(n.ast, dict) and n.kind != 'macro' and any(
+            y.get('kind') == 'CallExpr' and prog.callee_name(y) == 'memmove' and len(children(y)) > 2 and access_path(children(y)[1]) == dst
+            for y in walk(n.ast))]
+        for mv in moves:
+            rep.instance(rid)
+
+            def stores(m):
+                if not isinstance(m.ast, dict) or m.kind == 'macro' or m is mv:
+                    return False
+                for y in walk(m.ast):
+                    if y.get('kind') == 'BinaryOperator' and y.get('opcode') == '=':
+                        l = strip(children(y)[0])
+                        if l.get('kind') == 'ArraySubscriptExpr' and access_path(children(l)[0]) == dst:
+                            return True
+                        if l.get('kind') == 'UnaryOperator' and l.get('opcode') == '*' and access_path(children(l)[0]) == dst:
+                            return True
+                return False
+            # is there a path entry -> mv that passes a store?
+            seen, work, bad = set(), [(cfg.entry, False)], None
+            while work and bad is None:
+                m, st = work.pop()
+                if (m.id, st) in seen:
+                    continue
+                seen.add((m.id, st))
+                if m is mv:
+                    if st:
+                        bad = m
+                    continue
+                st2 = st or stores(m)
+                for (s, _l) in m.succs:
+                    work.append((s, st2))
+            rep.oblige(rid, bad is None, {'function': f.name, 'move_line': mv.line})
+            if bad is not None:
+                rep.violation(rid, f, mv.line, 'store-before-move',
+                              '%s stores into %s before the memmove at line %s has read the source: with overlapping arguments (which the '
+                              'routine promises to support) the store destroys a source byte that was not moved yet' % (f.name, dst, mv.line))
